@@ -25,9 +25,14 @@ def judge_output(comp, decoded, output: dict, families) -> list[str]:
     dims = list(decoded["output_dimensions"])
     indices = output["indices"]
     vals = output["vals"]
+    unreadable = [n for n in output.get("notes", []) if "unreadable" in n]
+    if unreadable:
+        return ["structure: " + n for n in unreadable]
     if any(v is None for v in vals):
         probs.append("uninitialised vals cell read back")
         return probs
+    if len(indices) != fmt.order:
+        return ["structure: output has the wrong number of levels"]
     inputs = replay.parse_inputs(decoded)
     idims = index_dims_from(decoded, comp)
     wf = replay.wf_problems(fmt, dims, indices, output.get("vals_length", len(vals)))
